@@ -170,7 +170,7 @@ fn strategy(kind: &Kind, needle: &[u8], hlen: usize) -> &'static str {
     if n == 1 {
         return "strategy/memchr";
     }
-    if n <= 32 {
+    if n <= 32 && s::Finder::is_available() {
         let smin = s::Finder::new(needle).map(|f| f.min_haystack_len()).unwrap_or(0);
         if hlen < smin {
             return "strategy/rabinkarp (below vector minimum)";
@@ -187,8 +187,10 @@ fn strategy(kind: &Kind, needle: &[u8], hlen: usize) -> &'static str {
     }
     if matches!(kind, Kind::FinderNoPre) {
         "strategy/twoway"
+    } else if s::Finder::is_available() {
+        "strategy/twoway+vector prefilter"
     } else {
-        "strategy/twoway+prefilter"
+        "strategy/twoway+portable prefilter (unless its rank cut-off disables it)"
     }
 }
 
@@ -439,13 +441,14 @@ fn run_e(
     letters: &[u8],
     nmin: usize,
     nmax: usize,
+    hmin: usize,
     hmax: usize,
     aligns: &[usize],
     places: &[Place],
     seed: u64,
 ) {
     let needles = AllStrings { letters: letters.to_vec(), minlen: nmin, maxlen: nmax }.all();
-    let hays = AllStrings { letters: letters.to_vec(), minlen: 0, maxlen: hmax };
+    let hays = AllStrings { letters: letters.to_vec(), minlen: hmin, maxlen: hmax };
     let ht = hays.total();
     let chunk = 8192u64;
     let nchunks = (ht + chunk - 1) / chunk;
@@ -593,9 +596,10 @@ fn main() {
             let nmin = args.num("nmin", 0) as usize;
             let nmax = args.num("nmax", 5) as usize;
             let hmax = args.num("hmax", 12) as usize;
+            let hmin = args.num("hmin", 0) as usize;
             let aligns: Vec<usize> = args.str("aligns", "0,5").split(',').map(|x| x.parse().unwrap()).collect();
-            run_e(&mut total, &kinds, &letters, nmin, nmax, hmax, &aligns, &places, seed);
-            bounds.insert("E".into(), json!({"letters": hex(&letters), "needle_len": [nmin, nmax], "haystack_len": [0, hmax], "offsets": aligns, "places": places.iter().map(|p| p.name()).collect::<Vec<_>>()}));
+            run_e(&mut total, &kinds, &letters, nmin, nmax, hmin, hmax, &aligns, &places, seed);
+            bounds.insert("E".into(), json!({"letters": hex(&letters), "needle_len": [nmin, nmax], "haystack_len": [hmin, hmax], "offsets": aligns, "places": places.iter().map(|p| p.name()).collect::<Vec<_>>()}));
         }
         "epad" => {
             let nmax = args.num("nmax", 3) as usize;
